@@ -24,12 +24,18 @@ META = {
             "off-diagonal kernels swapped), gluon<-heavy = -gamma_gq, heavy<-heavy = -gamma_ns, gluon<-gluon = gamma_gg(nf) - "
             "gamma_gg(nf+1) = -(beta0(nf) - beta0(nf+1)); identities in N. The time-like heavy<-gluon element is the single-"
             "quark expression and misses the factor two of h + hbar (known finding). (3) CONTINUATION: (1) and (2) are decided "
-            "at integer moments / as identities of the first-order expressions; off the integers the higher-order L-coefficients "
+            "at integer moments / as identities of the first-order expressions. (2b) HIGHER ORDERS, non-singlet: differentiating f'(nf+1) = A f(nf) "
+            "in ln mu^2 gives dA/dL + beta'(a') dA/da' = A (gamma(a) - gamma'(a')); with the coupling's decoupling this fixes all five "
+            "logarithmic coefficients of a_s^2 A2(L) + a_s^3 A3(L) from lower orders - checked at the odd moments N = 3, 5, 7, nf 3-5, "
+            "with exact values of the harmonic sums and the tree's own anomalous dimensions (through three loops), beta0 and upward "
+            "decoupling table (inverted in the check): exact to 1e-10 for four of them, 2e-3 for the one that needs the parametrised "
+            "three-loop anomalous dimension; off the integers the higher-order L-coefficients "
             "keep their RG form only if every parity-dependent harmonic sum requested inside a matching element is continued "
             "with that element's definite parity - every such request passes a literal boolean, the caller's own flag or a "
             "configuration-computed boolean (call-site rule shared with C26, restricted to the matching elements).",
-    "note": "Level 'other': the second- and third-order logarithms are not derived; third-order sum rules hold only to the accuracy "
-            "of the parametrisations.",
+    "note": "Level 'other': the second- and third-order logarithms are derived for the non-singlet element only (the singlet needs the "
+            "matrix form of the recursion); third-order sum rules and the a_s^3 L^1 coefficient hold only to the accuracy of the "
+            "parametrisations.",
     "technique": "partial evaluation at the sum-rule moments + exact special values of harmonic sums; differentiation in L + polynomial identity testing against anomalous dimensions extracted from the tree; definite-parity-flag call-site rule over the matching elements",
     "engine": "sa",
 }
@@ -45,7 +51,14 @@ def _sym(x, ft):
     return e
 
 
+_CONST = {"z2": sp.zeta(2), "z3": sp.zeta(3), "z4": sp.zeta(4), "z5": sp.zeta(5), "zeta2": sp.zeta(2), "zeta3": sp.zeta(3),
+          "zeta4": sp.zeta(4), "zeta5": sp.zeta(5), "log2": sp.log(2), "ln2": sp.log(2), "li4half": sp.polylog(4, sp.Rational(1, 2)), "pi": sp.pi}
+
+
 def _num(e):
+    e = sp.sympify(e)
+    if e.free_symbols:
+        e = e.subs({x: _CONST[x.name] for x in e.free_symbols if x.name in _CONST})
     if e.free_symbols:
         return None
     try:
@@ -206,6 +219,9 @@ def run(chk):
         ok, info = dag.is_zero_fp([d2], chk.seed, 2)
         chk.decide(ok, "first-order-log-follows-from-rg-invariance", q, "the first-order element is not linear in L", where=src.func(q).where,
                    instance="linear:" + q.split(".")[-3] + q.split(".")[-1])
+    # ---- (2b) second- and third-order logarithms of the non-singlet element from RG invariance -------------------------------------
+    n_rg = _ns_higher_logs(chk, src, pe, ft)
+    chk.floor("higher-order non-singlet RG identities", n_rg, 30)
     # ---- continuation off the integer moments: the alternating sums of a matching element carry the element's parity -----------
     # The identities above are decided at integer moments, where (-1)**N equals the parity of the element.  For complex N they
     # survive only if every parity-dependent harmonic sum requested inside the matching elements gets the element's definite
@@ -216,3 +232,54 @@ def run(chk):
     chk.floor("parity-dependent requests inside matching elements", sites["True"] + sites["False"] + sites["pass-through"] + sites["computed boolean"], 25)
     chk.note(sum_rule_obligations=n_ob, parity_sites=dict(sites), files=["src/ekore/operator_matrix_elements/**", "src/ekore/anomalous_dimensions/**/as1.py"])
     chk.explanation = "Sum rules with exact special values for all L; first-order logs from RG invariance against the tree's anomalous dimensions."
+
+
+def _ns_higher_logs(chk, src, pe, ft):
+    """f'(nf+1) = A(a', L) f(nf) for the non-singlet distributions, a' the (nf+1)-flavour coupling:  differentiating in ln mu^2,
+
+        dA/dL + beta'(a') dA/da' = A (gamma(a) - gamma'(a')),      a = a' + d1(L) a'^2 + d2(L) a'^3   (coupling decoupling, downwards)
+
+    fixes every logarithmic coefficient of A = 1 + a'^2 A2(L) + a'^3 A3(L) in terms of lower orders:
+        2 A2_2 = gamma0 d1_1                         A2_1 = gamma1(nf) - gamma1(nf+1)
+        3 A3_3 = 2 beta0' A2_2 + gamma0 d2_2         2 A3_2 = 2 beta0' A2_1 + gamma0 d2_1 + 2 gamma1(nf) d1_1
+          A3_1 = 2 beta0' A2_0 + gamma0 d2_0 + gamma2(nf) - gamma2(nf+1)        (three-loop anomalous dimension: parametrised)
+    Everything on the right is taken from the tree (anomalous dimensions, beta0, the coupling's upward decoupling table, inverted
+    here) and evaluated, like the left-hand side, at odd integer moments with the exact values of the harmonic sums."""
+    Ls = sp.Symbol("L")
+    L = dag.sym("L")
+    fN = src.func(f"{OME}.unpolarized.space_like.A_non_singlet")
+    n = 0
+    for nf in (3, 4, 5):
+        cup = pe.call("eko.couplings.compute_matching_coeffs_up", ["POLE", nf])
+        c11, c22, c21, c20 = (sp.nsimplify(_num(_sym(cup[i, j], ft)), rational=True) for i, j in ((1, 1), (2, 2), (2, 1), (2, 0)))
+        d11, d22, d21, d20 = -c11, 2 * c11 ** 2 - c22, -c21, -c20
+        b0p = _sym(pe.call("eko.beta.beta_qcd", [(2, 0), nf + 1]), ft)
+        for N in (3, 5, 7):
+            inst = f"nf={nf},N={N}"
+            try:
+                B = pe.call(fN.qname, [(3, 0), N, nf, L])
+                A2 = sp.Poly(_sym(B[1, 0, 0], ft), Ls)
+                A3 = sp.Poly(_sym(B[2, 0, 0], ft), Ls)
+                g = {m: [_sym(x, ft) for x in pe.call(f"{AD}.unpolarized.space_like.gamma_ns", [(3, 0), 10201, N, m, (0,) * 7, True]).flat()] for m in (nf, nf + 1)}
+            except PERaise as e:
+                chk.fail("higher-order-logs-follow-from-rg-invariance", fN.qname, f"{inst}: cannot be evaluated: {e}", where=fN.where, instance=inst)
+                continue
+            a2 = {k: A2.coeff_monomial(Ls ** k) for k in range(3)}
+            a3 = {k: A3.coeff_monomial(Ls ** k) for k in range(4)}
+            g0, g1, g1p, g2, g2p = g[nf][0], g[nf][1], g[nf + 1][1], g[nf][2], g[nf + 1][2]
+            rules = [
+                ("a_s^2 L^2", 2 * a2[2], g0 * d11, 1e-10),
+                ("a_s^2 L^1", a2[1], g1 - g1p, 1e-10),
+                ("a_s^3 L^3", 3 * a3[3], 2 * b0p * a2[2] + g0 * d22, 1e-10),
+                ("a_s^3 L^2", 2 * a3[2], 2 * b0p * a2[1] + g0 * d21 + 2 * g1 * d11, 1e-10),
+                ("a_s^3 L^1", a3[1], 2 * b0p * a2[0] + g0 * d20 + g2 - g2p, 2e-3),   # parametrised three-loop non-singlet anomalous dimension
+            ]
+            for name, lhs, rhs, tol in rules:
+                lv, rv = _num(sp.expand(lhs)), _num(sp.expand(rhs))
+                ok = lv is not None and rv is not None and abs(lv - rv) <= tol * max(1.0, abs(rv))
+                n += 1
+                chk.decide(ok, "higher-order-logs-follow-from-rg-invariance", fN.qname,
+                           f"{inst}, {name} coefficient of A_qq^NS: found {lv}, renormalisation-group invariance with the tree's anomalous "
+                           f"dimensions, beta0(nf+1) and coupling decoupling requires {rv} (relative tolerance {tol:g})", where=fN.where,
+                           instance=f"{inst},{name}", detail=f"{lv} vs {rv}", how="exact special values at odd moments + RG recursion")
+    return n
